@@ -34,6 +34,10 @@ type c10Case struct {
 	Kind  string   `json:"kind"` // det | stress
 	IDs   []string `json:"ids"`
 	Rates []uint64 `json:"rates"`
+	// History (stress relief only): SamplingRate values a long-lived node was configured with, in order
+	// (start, then hot reloads: every one is an UpdateFromConfig on the same instance), before it is
+	// reloaded to each of Rates in case order. Its decisions must equal those of a freshly started node.
+	History []uint64 `json:"history,omitempty"`
 	// Stat: additionally run the kept-fraction check on c10StatN ids derived
 	// from StatSeed by a harness-owned generator (splitmix64).
 	Stat     bool   `json:"stat,omitempty"`
@@ -76,6 +80,30 @@ func c10New(kind string, rate uint64) c10Decider {
 		}
 	}
 	panic("c10: unknown kind " + kind)
+}
+
+// c10Node is a long-lived stress-relief node whose configuration is hot-reloaded in place.
+type c10Node struct {
+	cfg *config.MockConfig
+	s   *collect.StressRelief
+}
+
+func c10NewNode() *c10Node {
+	cfg := &config.MockConfig{StressRelief: config.StressReliefConfig{Mode: "always", SamplingRate: 1, ActivationLevel: 90, DeactivationLevel: 75}}
+	return &c10Node{cfg: cfg, s: &collect.StressRelief{Config: cfg, Logger: &logger.NullLogger{}}}
+}
+
+// reload is what InMemCollector.reloadConfigs does: the config changed, UpdateFromConfig is called again.
+func (n *c10Node) reload(rate uint64) {
+	n.cfg.Mux.Lock()
+	n.cfg.StressRelief.SamplingRate = rate
+	n.cfg.Mux.Unlock()
+	n.s.UpdateFromConfig()
+}
+
+func (n *c10Node) decide(id string) (uint, bool) {
+	r, k, _ := n.s.GetSampleRate(id)
+	return r, k
 }
 
 // ---------------------------------------------------------------- second process
@@ -278,6 +306,9 @@ func genC10(t *rapid.T) c10Case {
 	c.IDs = rapid.SliceOfN(rapid.Custom(genC10ID), 1, 48).Draw(t, "ids")
 	kind := c.Kind
 	c.Rates = rapid.SliceOfN(rapid.Custom(func(t *rapid.T) uint64 { return genC10Rate(t, kind) }), 1, 6).Draw(t, "rates")
+	if c.Kind == "stress" {
+		c.History = rapid.SliceOfN(rapid.Custom(func(t *rapid.T) uint64 { return genC10Rate(t, kind) }), 0, 3).Draw(t, "history")
+	}
 	if rapid.IntRange(0, 19).Draw(t, "stat") == 17 { // not the shrink target: minimal cases skip the expensive sub-run
 		c.Stat = true
 		c.StatSeed = rapid.Uint64().Draw(t, "statseed")
@@ -349,6 +380,36 @@ func execC10(c c10Case) vkit.Result {
 			}
 		}
 	}
+	// a long-lived node that went through History and is then hot-reloaded to each rate (case order)
+	// must decide like a freshly started node at that rate
+	if c.Kind == "stress" {
+		node := c10NewNode()
+		reloads := 0
+		for _, h := range c.History {
+			if h >= 1 {
+				node.reload(h)
+				reloads++
+			}
+		}
+		for _, rate := range c.Rates {
+			if rate < 1 || rate > max {
+				continue
+			}
+			node.reload(rate)
+			reloads++
+			fresh := c10New(c.Kind, rate)
+			for _, id := range c.IDs {
+				r1, k1 := fresh(id)
+				r2, k2 := node.decide(id)
+				if r1 != r2 || k1 != k2 {
+					res.Violate("C10/stress/purity/reloaded-instance", "id %q: node configured %v then reloaded through %v, now at rate %d, says (rate %d keep %v); a freshly started node at rate %d says (rate %d keep %v)", id, c.History, c.Rates, rate, r2, k2, rate, r1, k1)
+				}
+			}
+		}
+		if reloads >= 2 {
+			res.Class("reloaded>=2")
+		}
+	}
 	// nesting: kept at N => kept at every M <= N
 	nestedPairs, keptHigh := 0, 0
 	for hi := range rates {
@@ -417,7 +478,7 @@ func TestC10(t *testing.T) {
 	defer func() { c10Child().stop() }()
 	vkit.Run(t, vkit.Spec[c10Case]{
 		ID:   "C10",
-		Rule: "rapid-generated (kind, trace-id list, rate list): ids are hex-16/32, arbitrary UTF-8, empty; rates 1..2^31 (DeterministicSampler) / 1..2^64-1 (StressRelief.GetSampleRate) biased to small values and powers of two +-1. Every (id, rate) is decided twice by one instance, by a second fresh instance and by a separately started process (the test binary re-executed in child mode); nesting is checked for every id and every pair of drawn rates; 1 in 20 cases additionally measures the kept fraction over 40000 generated ids at N in {2,3,10,100,10000} against max(6 sigma, Bernstein 1e-10). Non-trivial: some rate > 1 (or a statistical sub-run). Distinct = distinct case JSON.",
+		Rule: "rapid-generated (kind, trace-id list, rate list): ids are hex-16/32, arbitrary UTF-8, empty; rates 1..2^31 (DeterministicSampler) / 1..2^64-1 (StressRelief.GetSampleRate) biased to small values and powers of two +-1. Every (id, rate) is decided twice by one instance, by a second fresh instance and by a separately started process (the test binary re-executed in child mode); for stress relief a long-lived node is additionally configured with a generated history of rates and hot-reloaded (UpdateFromConfig on the same instance) to every drawn rate, and must agree with a fresh node at that rate; nesting is checked for every id and every pair of drawn rates; 1 in 20 cases additionally measures the kept fraction over 40000 generated ids at N in {2,3,10,100,10000} against max(6 sigma, Bernstein 1e-10). Non-trivial: some rate > 1 (or a statistical sub-run). Distinct = distinct case JSON.",
 		Assumptions: []string{
 			"the concrete hash function, salt and seed are not pinned: only purity, nesting, reported rate and kept fraction are asserted",
 			"'every node and every run' is observed as: two instances in one process plus one separately started process of the same binary on the same machine",
